@@ -120,7 +120,20 @@ def handle : Handler := fun op inp =>
       let per ← asList parseRecords (← field inp "perWorker")
       let comp ← natList (← field inp "completion")
       let order ← natList (← field inp "order")
-      return jOpt (jList (jPair jNat jNat)) (mergeAppendRekey per comp order)
+      return jOpt (jList (jPair jNat jNat)) (mergeAppendRekey (gather per comp) order)
+  | "procs.mergeKeyed" => some do
+      -- done = [(key, value)] in completion order; values are ids of opaque results
+      let disc ← asStr (← field inp "discipline")
+      let done ← parseRecords (← field inp "done")
+      let paths ← natList (fieldD inp "paths" (Json.arr #[]))
+      match disc with
+      | "sumCreationOrder" =>
+        -- buffers are numbers here; the sum is an exact Nat sum
+        return jOpt jNat (mergeSumCreationOrder (· + ·) 0 paths done)
+      | "sortedKeys" => return jOpt jNats (mergeSortedKeys done)
+      | "concatCreationOrder" => return jOpt jNats (mergeConcatCreationOrder paths done)
+      | "dictByKey" => return jList (jOpt jNat) (mergeDictByKey done paths)
+      | d => .error s!"discipline {d}"
   | "procs.chunks" => some do
       let n ← asNat (← field inp "nRows")
       let p ← asNat (← field inp "nProc")
